@@ -16,14 +16,15 @@
 //     escape bodies u00e9  uD83D  uDE00  u12(short)  u00eg(non-hex)
 // Reduced alphabets:
 //     R1 (26) = { } [ ] , : " \ u00e9 n 0 1 - . e true null SP LF a 0x1F C3A9 EDA080 E282 uD83D x
+//     R1x(36) = R1 + / t E + 9 false HT CR F09F9880 C0AF
 //     R2 (13) = { } [ ] , : " \ n a 1 true SP
 //     R3 ( 8) = { } [ ] , : " 1
 //
 //   T1  token strings:  quick    all of length <= 4 over A, length 5    over R1, length 6..7 over R2, length 8..9  over R3
-//                       thorough all of length <= 5 over A, length 5..6 over R1, length 6..8 over R2, length 8..10 over R3
+//                       thorough all of length <= 5 over A, length 5..6 over R1, length 6 over R1x, length 6..8 over R2, length 8..10 over R3
 //   T2  byte-exhaustive string bodies  '"' b1 .. bk '"'  with every bi in 0x00..0xFF for k <= 3, and for k = 4
 //          quick    b1 in {C2,DF,5C,E0..FF}, b2 any, b3 and b4 in the 13 boundary bytes 00 22 30 5C 7F 80 8F 90 9F A0 BF C0 FF
-//          thorough b1 in {5C,80..FF},       b2 any, b3 in 32 bytes (every 8th value 00,08,..F8 -- plus -- the boundary set), b4 in the boundary set
+//          thorough b1 in {5C,80..FF},       b2 any, b3 in 39 bytes (every 8th value 00,08,..F8 and the boundary set), b4 in the boundary set
 //       plus every byte string of length <= 2 (quick) / <= 3 (thorough) as the complete text (no quotes)
 //   T3  all single token edits (delete a token, replace a token by / insert at every position each token of A)
 //       of a corpus of valid documents that exercises every production; thorough: additionally all double edits
@@ -208,6 +209,12 @@ namespace
    Tokens alphabet_R1()
    {
       return { "{", "}", "[", "]", ",", ":", "\"", "\\", "u00e9", "n", "0", "1", "-", ".", "e", "true", "null", " ", "\n", "a", "\x1f", "\xc3\xa9", "\xed\xa0\x80", "\xe2\x82", "uD83D", "x" };
+   }
+   Tokens alphabet_R1x()  // R1 + 10
+   {
+      Tokens t = alphabet_R1();
+      for( const char* x : { "/", "t", "E", "+", "9", "false", "\t", "\r", "\xf0\x9f\x98\x80", "\xc0\xaf" } ) t.push_back( x );
+      return t;
    }
    Tokens alphabet_R2()
    {
@@ -429,6 +436,10 @@ int main( int argc, char** argv )
       domain_done( "T1_A", ok );
       for( int len = 5; ok && len <= ( T ? 6 : 5 ); ++len ) ok = token_strings( R1, len );
       domain_done( "T1_R1", ok );
+      if( T ) {
+         if( ok ) ok = token_strings( alphabet_R1x(), 6 );
+         domain_done( "T1_R1x", ok );
+      }
       for( int len = 6; ok && len <= ( T ? 8 : 7 ); ++len ) ok = token_strings( R2, len );
       domain_done( "T1_R2", ok );
       for( int len = 8; ok && len <= ( T ? 10 : 9 ); ++len ) ok = token_strings( R3, len );
@@ -506,7 +517,7 @@ int main( int argc, char** argv )
    }
 
    const std::string nc = std::to_string( corpus().size() );
-   const std::string note = T ? "thorough: T1 all token strings len<=5 over the 57-token alphabet A, len 5..6 over R1(26), len 6..8 over R2(13), len 8..10 over R3(8); T2 all string bodies \"b1..bk\" k<=3 over all 256 byte values, k=4 with b1 in {5C,80..FF} x b2 any x b3 in 40 bytes x b4 in 13 boundary bytes, "
+   const std::string note = T ? "thorough: T1 all token strings len<=5 over the 57-token alphabet A, len 5..6 over R1(26), len 6 over R1x(36), len 6..8 over R2(13), len 8..10 over R3(8); T2 all string bodies \"b1..bk\" k<=3 over all 256 byte values, k=4 with b1 in {5C,80..FF} x b2 any x b3 in 39 bytes x b4 in 13 boundary bytes, "
                                 "all bare byte strings len<=3; T3 all single token edits over A of " + nc + " valid documents and all double edits (second edit over R1) of those with <=24 tokens; every library run repeated with two poison tails behind the input"
                               : "quick: T1 all token strings len<=4 over the 57-token alphabet A, len 5 over R1(26), len 6..7 over R2(13), len 8..9 over R3(8); T2 all string bodies \"b1..bk\" k<=3 over all 256 byte values, k=4 with b1 in {C2,DF,5C,E0..FF} x b2 any x b3,b4 in 13 boundary bytes, "
                                 "all bare byte strings len<=2; T3 all single token edits over A of " + nc + " valid documents; every library run repeated with two poison tails behind the input";
